@@ -180,5 +180,21 @@ PLANS = {
         assumptions=['machines are not configured no_exception_thrown', 'only process_event/execute-queued paths are claimed (not start/stop)',
                      'uninitialised-data clause: see coverage.uninit (zero/pattern differential and valgrind sample)'],
     ),
+    'C13': dict(
+        oracle='C13', level='exploration', multi=True,
+        profiles=[('common', 8)], curated=[], configs=ALLCFG,
+        cp=dict(max_ops=25, kinds=['P', 'P', 'P', 'P', 'P', 'Q', 'X', 'T'], xmodes=['a'], scripts={'p': ['r', 'Q'], 't': True}, final_stop=True),
+        examples=(250, 2000), floor=(300, 3000),
+        rule='Differential: generated machines in the common feature subset (hierarchy, 1-3 regions, conflicts, state-internal '
+             'tables, completion rows with guards frozen per entry, history, explicit/fork/entry/exit points, root-level deferral '
+             'without contradicting rows, root-level blocking states, flags) are compiled for every configuration (back, back + '
+             'favor_compile_time, back + circular queue, back11, backmp11 flat_fold, backmp11 function_pointer_array, backmp11 + '
+             'favor_compile_time); the same generated case (events, valuations, nested submissions, throws, enqueue/execute, stop/start) '
+             'is driven into all of them and the normalised traces must be identical. Cases on which the two documented model dialects '
+             'disagree are outside the subset and discarded (counted). Non-trivial = a compared case touching hierarchy, >= 2 regions, '
+             'completion, queue, nested submission or a throw, run on >= 3 configurations; distinct by (spec, case).',
+        assumptions=['state identity is compared by name, result codes by class (zero / handled bit / other)',
+                     'a configuration that cannot compile a declaration is not compared for that machine (recorded)'],
+    ),
 }
 NOT_YET = {}
